@@ -424,6 +424,9 @@ func (d dom) valid(r *rand.Rand) interface{} {
 		}
 		return goodStrings[r.Intn(len(goodStrings))]
 	}
+	if d.empty() {
+		return canon(d.k, 0) // no valid value exists; callers do not ask (the model would reject the plan)
+	}
 	if d.edge {
 		if v, ok := pickFrom(r, d.candidates(), d.exactOK); ok {
 			return v
@@ -469,6 +472,9 @@ func (d dom) valid(r *rand.Rand) interface{} {
 	}
 	if hi-lo > 200 {
 		hi = lo + 200
+	}
+	if math.Floor(hi) < math.Ceil(lo) {
+		return canon(d.k, d.hi) // contradictory bounds (never drawn); the model rejects the plan
 	}
 	for try := 0; try < 40; try++ {
 		x := math.Ceil(lo) + float64(r.Intn(int(math.Floor(hi)-math.Ceil(lo))+1))
@@ -851,8 +857,8 @@ func (g *pgen) leaf(n *pnode, ctx pctx, init interface{}) {
 		return
 	}
 	o := opts[r.Intn(len(opts))]
-	if g.force && ctx.canCfg {
-		o = "config"
+	if g.force && ctx.canCfg && !d.empty() {
+		o = "config" // (no value can be configured under a bound nothing satisfies)
 	}
 	switch o {
 	case "config":
